@@ -11,7 +11,8 @@ Status summary (see `C17_full` at the end). The LIVE model is the repaired worke
 (`cfg.fixed = true`, hooks/C17-fix.patch; the order-fact tie accepts only that shape):
   proved, all schedules      : pipe_fifo, pipe_complete, pipe_writer_never_waits_on_reader,
                                bf_pipe_refines, bf_counter_inv, bf_no_early_exit, bf_exactly_once,
-                               bf_error_cancels, bf_return_joins_workers, bf_live_ctx_error_recorded,
+                               bf_error_cancels, bf_return_joins_workers, bf_return_no_goroutine_left,
+                               bf_live_ctx_error_recorded,
                                bf_measure (every step decreases the bound), bf_terminates,
                                limit_skip_window, range_partition_exact
   about the OLD protocol     : bf_terminates_refuted_old (witness of finding F14: the hang that was
@@ -20,8 +21,9 @@ Status summary (see `C17_full` at the end). The LIVE model is the repaired worke
   sequential helpers         : seq_helper_eq_spec and its instances traversePaths_eq_spec, terminals_eq_spec,
                                acyclicNodes_eq_spec, intermediaryPaths_eq_spec (result = skip/limit window
                                of the FILTERED DFS candidate sequence, all graphs/filters/skip/limit)
-  stated, not proved         : C17_seq_paths_full (the DFS candidate order of TraversePaths = the recursive
-                               path definition); tested by the tie only
+                               traversePaths_order_eq_spec, paths_fit_finite, c17_seq_paths (the DFS candidate
+                               order of TraversePaths = the recursive path definition on every finite graph)
+  full statement             : c17_full : C17_full (unconditional)
   outside the LTS (observed) : goroutine exit of the pipe after return, wall-clock promptness,
                                the unsynchronised PathSegment.size roll-up
 -/
@@ -295,6 +297,24 @@ theorem bf_return_joins_workers (cfg : Cfg) (s : BF) (h : BF.Reach cfg s) :
     | cancel => simp only [BF.step] at hs; split at hs <;> try cases hs
                 exact ih z hc
 
+/-- No goroutine is left behind by the protocol: when BreadthFirst has returned, every worker has
+returned (`bf_return_joins_workers`) and the pipe goroutine has either returned already or its
+`ctx.Done()` case is enabled — it needs no further input from anyone to exit, and taking that step
+puts it in its final state. (The Go runtime actually scheduling that step is observed by the harness:
+goroutine count settles, class `goroutine-leak` otherwise.) -/
+theorem bf_return_no_goroutine_left (cfg : Cfg) (s : BF) (h : BF.Reach cfg s) (z : Bool) (hc : s.coord = .ret z) :
+    s.ws.all WState.isExited = true ∧
+    (s.sh.pipe.phase = .done ∨
+      ∃ s', s.step cfg .pipeExit = some s' ∧ s'.sh.pipe.phase = .done ∧ s'.ws = s.ws ∧ s'.coord = s.coord) := by
+  refine ⟨bf_return_joins_workers cfg s h z hc, ?_⟩
+  have hcan : s.sh.cancelled = true := (reach_inv2 h).jn (by rw [hc]; rfl)
+  rcases (reach_inv2 h).ph with hp | ⟨hp, _⟩
+  · right
+    have hcan' : s.sh.pipe.cancelled = true := hcan
+    refine ⟨{ s with sh := s.sh.setPipe { s.sh.pipe with phase := .done } }, ?_, rfl, rfl, rfl⟩
+    simp [BF.step, Pipe.step, hcan', hp]
+  · exact Or.inl hp
+
 /-! ## (c) sequential helpers -/
 
 /-- LimitSkipTracker: offering any candidate sequence to a fresh tracker collects exactly the
@@ -411,15 +431,41 @@ def SeqCore : Prop :=
   (∀ (p : Seq.Plan) (root : Nat) (skip limit : Int) (fuel : Nat),
       (Seq.loop p fuel (Seq.start root skip limit)).out = Seq.specOut p root skip limit fuel)
 
-/-- stated, NOT proved: for TraversePaths without user filters the DFS candidate sequence
-(`Seq.events`, the order in which the stack loop reaches path terminals) is the recursively defined
-list of maximal acyclic paths (`Seq.pathsSpec`) on every finite graph. Exercised by the tie only. -/
+/-- TraversePaths returns the plan-defined paths: on every finite graph (node ids below `N`), with any
+descent / path filters, any skip and limit, once the loop has enough fuel to finish, the collected
+paths are the skip/limit window of `Seq.pathsSpec` — the maximal acyclic filtered paths defined by
+recursion on the path tree, last fetched branch first. -/
 def C17_seq_paths_full : Prop :=
-  ∀ (adj : Nat → List (Nat × Nat)) (root : Nat),
-    (∃ f0, ∀ f, f0 ≤ f → Seq.pathsSpec adj f { root := root, steps := [] } = Seq.pathsSpec adj f0 { root := root, steps := [] }) →
+  ∀ (p : Seq.Plan), p.helper = .paths → ∀ (root N : Nat), (∀ n, ∀ e ∈ p.adj n, e.2 < N) → root < N →
+    ∀ (skip limit : Int), ∃ f0, ∀ f, f0 ≤ f →
+      (Seq.loop p f (Seq.start root skip limit)).out =
+        Seq.window skip limit (Seq.pathsSpec p N { root := root, steps := [] })
+
+/-- The candidate order of TraversePaths (stack DFS, `Seq.events`) is the recursive path definition:
+whenever the path tree below the root is lower than `d` (`Seq.Fits`), from some fuel on the DFS event
+sequence equals `Seq.pathsSpec p d root`. -/
+theorem traversePaths_order_eq_spec (p : Seq.Plan) (hp : p.helper = .paths) (root d : Nat)
+    (hfit : Seq.Fits p d { root := root, steps := [] }) :
     ∃ f0, ∀ f, f0 ≤ f →
-      Seq.events { adj := adj, helper := .paths } f { stack := [{ root := root, steps := [] }], visited := [] } =
-        Seq.pathsSpec adj f { root := root, steps := [] }
+      Seq.events p f { stack := [{ root := root, steps := [] }], visited := [] } =
+        Seq.pathsSpec p d { root := root, steps := [] } := by
+  obtain ⟨n, hn⟩ := Seq.events_subtree p hp d _ hfit
+  refine ⟨n, fun f hf => ?_⟩
+  have e : f = n + (f - n) := by omega
+  rw [e, hn (f - n) [] [], Seq.events_nil, List.append_nil]
+
+/-- every finite graph fits: acyclic paths over node ids `< N` have at most `N` nodes -/
+theorem paths_fit_finite (p : Seq.Plan) (root N : Nat) (hadj : ∀ n, ∀ e ∈ p.adj n, e.2 < N) (hr : root < N) :
+    Seq.Fits p N { root := root, steps := [] } :=
+  Seq.fits_of_bounded p N hadj N _ (by simp [Seq.Seg.pathNodes]) (by simp [Seq.Seg.pathNodes, hr])
+    (by simp [Seq.Seg.depth])
+
+/-- TraversePaths = the plan-defined paths (closes the former gap `C17_seq_paths_full`) -/
+theorem c17_seq_paths : C17_seq_paths_full := by
+  intro p hp root N hadj hr skip limit
+  obtain ⟨f0, h0⟩ := traversePaths_order_eq_spec p hp root N (paths_fit_finite p root N hadj hr)
+  refine ⟨f0, fun f hf => ?_⟩
+  rw [seq_helper_eq_spec, Seq.specOut, h0 f hf]
 
 /-- C17 at full strength on the LIVE model (repaired worker error branch, `fixed = true`). -/
 def C17_full : Prop :=
@@ -429,8 +475,7 @@ def C17_full : Prop :=
 def C17_full_old : Prop :=
   PipeSpec ∧ (∀ cfg : Cfg, 1 ≤ cfg.n → cfg.fixed = false → BFSafe cfg ∧ BFLive cfg) ∧ SeqCore ∧ C17_seq_paths_full
 
-/-- What is proved: `C17_full` except the DFS = spec equation (`C17_seq_paths_full`); safety is
-proved for both protocol variants. -/
+/-- `C17_full` without the TraversePaths = recursive definition clause; safety for both protocol variants. -/
 def C17_partial : Prop :=
   PipeSpec ∧ (∀ cfg : Cfg, BFSafe cfg) ∧ (∀ cfg : Cfg, 1 ≤ cfg.n → cfg.fixed = true → BFLive cfg) ∧ SeqCore
 
@@ -453,9 +498,9 @@ theorem c17_partial : C17_partial := by
   · exact ⟨fun skip limit xs => limit_skip_window skip limit xs, fun max stride hs => (range_partition_exact max stride hs).1,
       seq_helper_eq_spec⟩
 
-/-- the only gap between what is proved and the full statement is the DFS = spec equation -/
-theorem c17_full_of_seq_paths (h : C17_seq_paths_full) : C17_full :=
-  ⟨c17_partial.1, fun cfg hn hf => ⟨c17_partial.2.1 cfg, c17_partial.2.2.1 cfg hn hf⟩, c17_partial.2.2.2, h⟩
+/-- C17 at full strength on the protocol / helper models: unconditional. -/
+theorem c17_full : C17_full :=
+  ⟨c17_partial.1, fun cfg hn hf => ⟨c17_partial.2.1 cfg, c17_partial.2.2.1 cfg hn hf⟩, c17_partial.2.2.2, c17_seq_paths⟩
 
 /-- The full statement was false for the protocol before the repair: the swallowed-error hang (F14). -/
 theorem c17_full_old_refuted : ¬ C17_full_old := by
